@@ -1,0 +1,50 @@
+//go:build verif
+
+package tree
+
+import (
+	"os"
+	"runtime"
+	"strconv"
+	"strings"
+	"sync/atomic"
+	"time"
+)
+
+// Verification hook (build tag "verif" only): a scheduling point inside the
+// worker loops of the threaded computations (Compare, CompareWeighted, FBP,
+// TBE, ReadMultiTrees), used to widen the set of goroutine interleavings that
+// the checks explore. Without the tag VerifYield is an empty function.
+//
+// By default every call is runtime.Gosched(). With the environment variable
+// GOTREE_VERIF_YIELD=<seed>:<permille>, about permille/1000 of the calls
+// sleep for 0..63 microseconds instead (pseudo-random, derived from seed and
+// from the number of calls so far).
+var (
+	verifYieldSeed     uint64
+	verifYieldPermille uint64
+	verifYieldCalls    uint64
+)
+
+func init() {
+	f := strings.Split(os.Getenv("GOTREE_VERIF_YIELD"), ":")
+	if len(f) == 2 {
+		verifYieldSeed, _ = strconv.ParseUint(f[0], 10, 64)
+		verifYieldPermille, _ = strconv.ParseUint(f[1], 10, 64)
+	}
+}
+
+// VerifYield is a scheduling point (see above).
+func VerifYield() {
+	if verifYieldPermille == 0 {
+		runtime.Gosched()
+		return
+	}
+	x := (atomic.AddUint64(&verifYieldCalls, 1) + verifYieldSeed) * 0x9E3779B97F4A7C15
+	x ^= x >> 31
+	if x%1000 < verifYieldPermille {
+		time.Sleep(time.Duration((x>>40)%64) * time.Microsecond)
+	} else {
+		runtime.Gosched()
+	}
+}
